@@ -16,6 +16,7 @@ const repoMod = "github.com/aukilabs/hagall"
 
 // Program is the type-checked view of /repo's working tree.
 type Program struct {
+	normalized int // constructions rewritten into composite literals by the loader
 	Dir   string
 	Fset  *token.FileSet
 	Pkgs  []*packages.Package          // the repo packages (sorted by path)
@@ -158,6 +159,9 @@ func Load(dir string, deep bool, overlay map[string][]byte) (*Program, error) {
 	sort.Slice(p.Pkgs, func(i, j int) bool { return p.Pkgs[i].PkgPath < p.Pkgs[j].PkgPath })
 	p.allPkgs = pkgs
 	p.deep = true
+	for _, pk := range p.Pkgs {
+		p.normalized += normalizeConstructions(pk)
+	}
 	resolveNames(p.Pkgs)
 	for _, pk := range p.Pkgs {
 		p.indexPkg(pk)
